@@ -15,6 +15,7 @@ import (
 	"os"
 	"sort"
 	"sync"
+	"sync/atomic"
 	"testing"
 	"time"
 
@@ -26,6 +27,7 @@ import (
 	"gitlab.com/yawning/obfs4.git/internal/verifkit/drive"
 	"gitlab.com/yawning/obfs4.git/internal/verifkit/ev"
 	"gitlab.com/yawning/obfs4.git/internal/verifkit/refobfs4"
+	"gitlab.com/yawning/obfs4.git/internal/verifkit/wire"
 	"gitlab.com/yawning/obfs4.git/transports/obfs4/framing"
 )
 
@@ -441,6 +443,199 @@ func TestVerifC09EndToEnd(t *testing.T) {
 	c.Floor("iat-2/e2e", 0.15)
 	c.Floor("iat-1/e2e", 0.10)
 	rapid.Check(t, func(rt *rapid.T) { vfC09Case(rt, c) })
+}
+
+// ---- (b2) the server's seed frame arrives while the client is writing ---------------------
+
+// TestVerifC09SeedWhileWriting: the length distribution is replaced (Reset) by
+// the reader goroutine when the server's seed frame is processed, while the
+// writer goroutine samples it.  Free-running (also under -race).
+func TestVerifC09SeedWhileWriting(t *testing.T) {
+	vfSetup(t)
+	c := ev.For("C09")
+	c.Rule("seed-while-writing: real client (public factory) whose server's seed frame is withheld; a writer goroutine performs 6..40 Writes (0..3000 bytes) back to back while the harness delivers the seed frame after a drawn number of them (free-running, also under -race); oracle: no panic / error, every burst decodes to exactly the data written with frames <= 1448, the length of every burst (iat-mode 0/1) or wire write (iat-mode 2) is explained by the client's initial table or by the bridge's table, and at the final quiescence the client uses exactly the bridge's distribution; non-trivial = the seed frame was delivered while Writes were still to come; fingerprint = seed, mode, sizes, delivery point, randomness key")
+	c.Floor("seed-overlaps-writes/seed-while-writing", 0.5)
+	rapid.Check(t, func(rt *rapid.T) {
+		rk := rapid.Uint64().Draw(rt, "randKey")
+		defer vfRandSeedKey(rk)()
+		var br vfBridge
+		br.ID = refobfs4.NewIdentity(detrand.Bytes(rapid.Uint64().Draw(rt, "identity"), 52))
+		br.Biased = rapid.Bool().Draw(rt, "biased")
+		br.IAT = rapid.SampledFrom([]int{0, 0, 0, 1, 2}).Draw(rt, "iat")
+		br.Seed = detrand.Bytes(rapid.Uint64().Draw(rt, "seed"), 24)
+		serverTable := vfSeedTable(br.Seed, br.Biased)
+		serverFull := vfSeedDistFull(br.Seed, br.Biased)
+		ent := vfEnt(rapid.Uint64().Draw(rt, "refEntropy"))
+		s, err := vfRefSessionOpt(br, ent, true, false, true)
+		if s != nil && s.N != nil {
+			defer s.N.Shutdown()
+		}
+		if err != nil {
+			rt.Fatalf("VIOL[c09-session]: %v", err)
+		}
+		oc, ok := s.Ep.Conn().(*obfs4Conn)
+		if !ok {
+			rt.Fatalf("INFRA: connection is %T", s.Ep.Conn())
+		}
+		initialTable := vfDistValues(oc.lenDist) // read before the writer starts
+		nw := rapid.IntRange(6, 40).Draw(rt, "writes")
+		if br.IAT != iatNone {
+			nw = rapid.IntRange(4, 10).Draw(rt, "writesIAT")
+		}
+		sizes := make([]int, nw)
+		for i := range sizes {
+			sizes[i] = rapid.SampledFrom([]int{0, 1, 50, 700, 1406, 1427, 1428, 3000}).Draw(rt, "size")
+			if br.IAT != iatNone && sizes[i] > 1428 {
+				sizes[i] = 700
+			}
+		}
+		deliverAfter := rapid.IntRange(0, nw-1).Draw(rt, "deliverAfter")
+		type wrec struct {
+			n, id int
+			res   string
+			bad   bool
+		}
+		recs := make([]wrec, nw)
+		var done int32
+		reached := make(chan struct{})
+		fin := make(chan struct{})
+		go func() {
+			defer close(fin)
+			off := 0
+			for i, n := range sizes {
+				if i == deliverAfter {
+					close(reached)
+				}
+				res, wn, id := s.Ep.Write(vfCounterStream(0, off, n))
+				recs[i] = wrec{n: n, id: id}
+				if res.Failed() {
+					recs[i].bad, recs[i].res = true, "VIOL[c09-write-panic]: Write("+fmt.Sprint(n)+" bytes) while the seed frame arrives: "+res.String()
+					return
+				}
+				if res.Err != nil || wn != n {
+					recs[i].bad, recs[i].res = true, fmt.Sprintf("VIOL[c09-write-error]: Write(%d) = %d, %v", n, wn, res.Err)
+					return
+				}
+				off += n
+				atomic.AddInt32(&done, 1)
+			}
+		}()
+		<-reached
+		doneAtDelivery := int(atomic.LoadInt32(&done))
+		s.N.Inject(s.RefSide, s.HeldSeedFrame)
+		s.N.ReleaseAll(s.RefSide)
+		select {
+		case <-fin:
+		case <-time.After(120 * time.Second):
+			rt.Fatalf("VIOL[c09-wedge]: writer has not finished %d Writes within 120 s\n%s", nw, wire.Stacks())
+		}
+		if err := s.N.WaitQuiescent(s.RealSide); err != nil {
+			rt.Fatalf("VIOL[c09-wedge]: %v", err)
+		}
+		for _, r := range recs {
+			if r.bad {
+				rt.Fatalf("%s (iat-mode %d, seed %x, initial table %v, bridge table %v)", r.res, br.IAT, br.Seed, initialTable, serverTable)
+			}
+		}
+		if pv, stk := s.Ep.Panic(); pv != nil {
+			rt.Fatalf("VIOL[c09-write-panic]: reader panicked while processing the seed frame: %v\n%s", pv, stk)
+		}
+		if rerr := s.Ep.ReadErr(); rerr != nil {
+			rt.Fatalf("VIOL[c09-session]: client Read failed on the seed frame: %v", rerr)
+		}
+		if got := vfDistValues(oc.lenDist); fmt.Sprint(got) != fmt.Sprint(serverTable) {
+			rt.Fatalf("VIOL[c09-client-ignores-seed]: the seed frame has been processed, the client's length table is %v, the bridge's is %v", got, serverTable)
+		}
+		if vfDistFull(oc.lenDist) != serverFull {
+			rt.Fatalf("VIOL[c09-client-distribution-differs]: the seed frame was processed while Writes were in progress; the client's weights / sampling tables differ from the distribution the bridge builds from that seed (biased=%v)", br.Biased)
+		}
+		// judge the bursts
+		w, _, _ := s.N.Snapshot()
+		byID := map[int][]int{}
+		for _, r := range w {
+			if r.Side == s.RealSide {
+				byID[r.Bracket] = append(byID[r.Bracket], r.N)
+			}
+		}
+		explained := func(p, total int) bool {
+			for _, table := range [][]int{initialTable, serverTable} {
+				for _, v := range table {
+					for _, a := range vfAllowedPad(p, v) {
+						if p+a == total {
+							return true
+						}
+					}
+				}
+			}
+			return false
+		}
+		for _, r := range recs {
+			lens := byID[r.id]
+			total := 0
+			for _, l := range lens {
+				total += l
+			}
+			p := 0
+			for rem := r.n; rem > 0; rem -= maxPacketPayloadLength {
+				k := rem
+				if k > maxPacketPayloadLength {
+					k = maxPacketPayloadLength
+				}
+				p += headerLength + k
+			}
+			switch br.IAT {
+			case iatNone, iatEnabled:
+				if r.n == 0 && total == 0 {
+					continue
+				}
+				if !explained(p, total) {
+					rt.Fatalf("VIOL[c09-burst-length]: iat-mode %d: Write(%d) put %d bytes on the wire (%d of frames carrying data) while the seed frame arrived; neither the client's initial table %v nor the bridge's table %v explains the padding", br.IAT, r.n, total, p, initialTable, serverTable)
+				}
+				if br.IAT == iatEnabled {
+					for j, l := range lens {
+						if l > vfSeg || (j < len(lens)-1 && l != vfSeg) || l == 0 {
+							rt.Fatalf("VIOL[c09-iat-write-size]: iat-mode 1: wire writes %v for Write(%d)", lens, r.n)
+						}
+					}
+				}
+			case iatParanoid:
+				for _, l := range lens {
+					ok := l != 0 && (vfContains(initialTable, l) || vfContains(serverTable, l))
+					if !ok && !(l == vfSeg && (vfContains(initialTable, 0) || vfContains(serverTable, 0))) {
+						rt.Fatalf("VIOL[c09-paranoid-write-size]: iat-mode 2: wire writes %v for Write(%d): %d is in neither the client's initial table %v nor the bridge's table %v", lens, r.n, l, initialTable, serverTable)
+					}
+				}
+			}
+		}
+		// everything decodes to what was written
+		s.Dec.Feed(s.N.Take(s.RealSide))
+		frames, err := s.Dec.All()
+		if err != nil || s.Dec.Buffered() != 0 {
+			rt.Fatalf("VIOL[c09-frames]: the bursts do not decode as whole frames: %v (%d bytes left)", err, s.Dec.Buffered())
+		}
+		var got []byte
+		for _, f := range frames {
+			if f.WireLen > vfSeg {
+				rt.Fatalf("VIOL[c09-frame-too-long]: frame of %d bytes on the wire", f.WireLen)
+			}
+			got = append(got, f.Payload...)
+		}
+		tot := 0
+		for _, n := range sizes {
+			tot += n
+		}
+		if !bytes.Equal(got, vfCounterStream(0, 0, tot)) {
+			rt.Fatalf("VIOL[c09-frames]: frames carry %d payload bytes, %d were written", len(got), tot)
+		}
+		overlap := doneAtDelivery < nw
+		cls := []string{"seed-while-writing", fmt.Sprintf("sww-iat-%d", br.IAT)}
+		if overlap {
+			cls = append(cls, "seed-overlaps-writes")
+		}
+		c.Case(ev.Hash(br.Seed, br.IAT, br.Biased, fmt.Sprint(sizes), deliverAfter, rk), overlap, cls, func() any {
+			return map[string]any{"seed": ev.Hex(br.Seed), "iat": br.IAT, "biased": br.Biased, "sizes": fmt.Sprint(sizes), "deliver_after": deliverAfter, "writes_done_at_delivery": doneAtDelivery}
+		})
+	})
 }
 
 // ---- (c) paranoid mode terminates for every single-value table ---------------------------------
